@@ -236,7 +236,9 @@ class Gen:
             ish_b, osh_b = ish, osh
             if rng.random() < 0.08:
                 ish_b, osh_b = _reshaped(ish), _reshaped(osh)
-            b = self.gen(d, ish_b, osh_b, ai, ao, allow_mat=not a.is_mat)
+            # no MatrixOperator on the right: Python gives a subclass's reflected method precedence, so `G + M` / `G - M`
+            # are evaluated as `M.__radd__(G)` / `M.__rsub__(G)` = `M + G` / `(-M) + G` (class-specific, metadata of M)
+            b = self.gen(d, ish_b, osh_b, ai, ao, allow_mat=False)
             return self.combine({"k": f}, [a, b])
         if f == "neg":
             return self.combine({"k": "neg"}, [self.gen(d, ish, osh, idt, odt)])
